@@ -14,19 +14,6 @@ func init() { register("C11", c11) }
 
 const sqlx = "lib/store/sqlx"
 
-func isErrPtrFreeVarLoad(v ssa.Value) bool {
-	u, ok := v.(*ssa.UnOp)
-	if !ok || u.Op != token.MUL {
-		return false
-	}
-	fv, ok := u.X.(*ssa.FreeVar)
-	if !ok {
-		return false
-	}
-	p, ok := fv.Type().(*types.Pointer)
-	return ok && p.Elem().String() == "error"
-}
-
 func isRecoverResult(v ssa.Value) bool {
 	c, ok := v.(*ssa.Call)
 	if !ok {
@@ -45,7 +32,7 @@ func c11(r *core.Run) {
 	isCommit := core.CallMethod("sqlx.trans", "Commit")
 	isRollback := core.CallMethod("sqlx.trans", "Rollback")
 	recoverNil := core.Cmp(token.EQL, isRecoverResult, core.IsNil)
-	errNil := core.Cmp(token.EQL, isErrPtrFreeVarLoad, core.IsNil)
+	errNil := core.Cmp(token.EQL, c11ErrVarLoad(p), core.IsNil) // the shared error variable (see c11_util.go), read in any form
 
 	// role: the finalisers are the functions of the package that call trans.Commit
 	var finalisers []*ssa.Function
@@ -131,16 +118,8 @@ func c11(r *core.Run) {
 			for _, c := range cs {
 				fromCommit := func(v ssa.Value) bool { return core.IsResult(v, 0, core.Is(c)) }
 				storesIt := func(in ssa.Instruction) bool {
-					st, ok := in.(*ssa.Store)
-					if !ok {
-						return false
-					}
-					fv, ok := st.Addr.(*ssa.FreeVar)
-					if !ok {
-						return false
-					}
-					pt, ok := fv.Type().(*types.Pointer)
-					return ok && pt.Elem().String() == "error" && core.DependsOn(st.Val, fromCommit)
+					st, ok := c11ErrVarStore(p, in)
+					return ok && core.DependsOn(st.Val, fromCommit)
 				}
 				// paths on which Commit's error is known to be nil need no store
 				okEdges, _ := core.EdgesOf(f, core.Cmp(token.EQL, fromCommit, core.IsNil))
@@ -170,12 +149,8 @@ func c11(r *core.Run) {
 				case *ssa.Panic:
 					return true
 				case *ssa.Store:
-					fv, ok := x.Addr.(*ssa.FreeVar)
-					if !ok {
-						return false
-					}
-					pt, ok := fv.Type().(*types.Pointer)
-					return ok && pt.Elem().String() == "error" && !core.IsNil(x.Val)
+					st, ok := c11ErrVarStore(p, x)
+					return ok && !core.IsNil(st.Val)
 				}
 				return false
 			}
@@ -417,7 +392,19 @@ func c11(r *core.Run) {
 		}
 		r.Fn(core.FuncName(f))
 		isFields := func(v ssa.Value) bool { return core.IsResult(v, 0, core.CallTo("lib/store/sqlx.unwrapFields")) }
-		fewer := core.Cmp(token.LSS, core.IsLenOf(core.ParamAt(f, 1)), core.IsLenOf(isFields))
+		// len(fields) − len(columns) > 0 in any spelling (`len(columns) < len(fields)`, `len(fields) > len(columns)`,
+		// `missing := len(fields)-len(columns); missing > 0`, …); the non-strict form (≥, which would also reject an
+		// exactly matching result) is not accepted
+		alg := &core.Alg{Name: func(v ssa.Value) string {
+			switch {
+			case isFields(v):
+				return "fields"
+			case core.ParamAt(f, 1)(v):
+				return "columns"
+			}
+			return ""
+		}}
+		fewer := core.CmpPoly(alg, core.ParsePoly("len(fields) - len(columns)"), false)
 		strict := core.BoolVal(core.ParamAt(f, 2))
 		retNM := func(in ssa.Instruction) bool {
 			ret, ok := in.(*ssa.Return)
